@@ -1,6 +1,8 @@
 (* props/C13.v — C13: every legal move gets its standard algebraic notation and no two moves of
    a position share a label.  position_likeb (decidable, evaluated by the runner on the generated
    move list of every scenario state) collects the hypotheses about the candidate list. *)
+From ChessV Require Import Rays MoveGen InvProofs2 SanClosed.
+From ChessV Require Rules.
 From Coq Require Import NArith List String.
 From ChessV Require Import Abs San UciProofs SanProofs.
 Open Scope N_scope.
@@ -29,7 +31,28 @@ Check @render_inj.
 Check @dis_separates.
 Check @position_likeb_spec.
 
+
+(* ---- closed (SanClosed.v): for every board satisfying the reachable-state invariant ---- *)
+Section C13_closed.
+Variable T : ztable.
+Variables rook_t bishop_t : N -> N -> N.
+Hypothesis rook_t_ref : forall x o, x < 64 -> rook_t x o = rook_ref x o.
+Hypothesis bishop_t_ref : forall x o, x < 64 -> bishop_t x o = bishop_ref x o.
+
+Theorem C13_san_exact : forall b cands b1, Inv rook_t bishop_t b ->
+  gen_annotated T rook_t bishop_t b (turn b) = Ok (cands, b1) ->
+  b1 = b /\ NoDup (map fst cands) /\
+  (forall m, In m (map fst cands) <-> In m (Rules.legal_moves (abstract b))) /\
+  exists r, (san_all b1 (map fst cands) cands = Ok r) /\
+    (r = map (fun me => (fst me, spec_label (abstract b) (Rules.legal_moves (abstract b)) (fst me)
+                               (Rules.move_effect (abstract b) (turn b) (fst me)))) cands) /\
+    NoDup (map snd r).
+Proof. exact (san_exact T rook_t bishop_t rook_t_ref bishop_t_ref). Qed.
+End C13_closed.
+Check @generated_list_position_likeb.
+
 Print Assumptions C13_san_matches_spec.
 Print Assumptions C13_san_labels_nodup.
 Print Assumptions C13_whole_list.
 Print Assumptions C13_no_panic.
+Print Assumptions C13_san_exact.
